@@ -96,3 +96,29 @@ Print Assumptions unknown_template.
 Print Assumptions define_invisible.
 Print Assumptions trim_inner_untouched.
 Print Assumptions load_order_irrelevant.
+
+(* ---- END TO END (Proofs/EndToEndDirectives.v, session 3): one file with a definition, an insert host and a replace host:
+   for EVERY string bound to t the output is <main><span><b>escape(t)</b></span><b>escape(t)</b></main> — the definition
+   is invisible where written, insert wraps the fragment in the host tag, replace substitutes it, the hosts' own children
+   are discarded, the blanks at the edges of the definition are trimmed; the same with the definition in another file, in
+   either load order; the file that only holds the definition renders to nothing. *)
+From Coq Require Import List NArith ZArith Bool Lia Arith String Ascii.
+From Tpl Require Import Html.Exec Html.Manager Gen.Facts Proofs.ExecSpec Proofs.RenderPlain Proofs.RangeProps Proofs.FuelMono
+  Proofs.ReadbackExample Proofs.EndToEnd.
+Import ListNotations.
+Open Scope N_scope.
+From Tpl Require Import Proofs.EndToEndDirectives.
+Theorem e2e_fragment_source_to_output : exists tps tp,
+  bx_add_files [] [(s2l "page", src_frag)] = (tps, None) /\ assoc (s2l "page") tps = Some tp /\
+  forall (u : str) (t : tbl) (st : rst) (fuel : nat), r_budget st = None -> (4 <= fuel)%nat ->
+  bx_execute (bx_mk tps) fuel tp (VMap [(s2l "t", VStr u)]) t st =
+  (s2l "<main><span><b>" ++ escape u ++ s2l "</b></span><b>" ++ escape u ++ s2l "</b></main>", ROk, t, st).
+Proof. exact EndToEndDirectives.fragment_source_to_output. Qed.
+Theorem e2e_fragment_two_files : forall (u : str) (t : tbl) (st : rst) (fuel : nat), r_budget st = None -> (4 <= fuel)%nat ->
+  bx_execute (bx_mk tps_two) fuel tp_page2 (VMap [(s_t, VStr u)]) t st = (frag_out u, ROk, t, st) /\
+  bx_execute (bx_mk tps_two') fuel tp_page2 (VMap [(s_t, VStr u)]) t st = (frag_out u, ROk, t, st).
+Proof. exact EndToEndDirectives.fragment_two_files. Qed.
+Theorem e2e_definition_file_invisible : forall (data : value) (t : tbl) (st : rst) (fuel : nat), r_budget st = None -> (2 <= fuel)%nat ->
+  bx_execute (bx_mk tps_two) fuel (tp_named s_lib tps_two) data t st = ([], ROk, t, st).
+Proof. exact EndToEndDirectives.definition_file_invisible. Qed.
+Print Assumptions e2e_fragment_source_to_output.
